@@ -59,6 +59,9 @@ func (interp *Interpreter) SingleStepStateTransition(pc ProgramCounter) (ExitRea
 
 	if pc != newPC {
 		// execute branch instruction
+		if newPC == selfJump {
+			newPC = pc
+		}
 		return exitReason, newPC
 	}
 
@@ -126,6 +129,9 @@ func (interp *Interpreter) SingleStepInvokeDecodedBlocks(pc ProgramCounter) (Exi
 			}
 
 			if instr.PC != newPC {
+				if newPC == selfJump {
+					newPC = instr.PC
+				}
 				pc = newPC
 				branchTaken = true
 				break
@@ -210,6 +216,9 @@ func (interp *Interpreter) ExecuteInstructions(pc ProgramCounter, pcPrime Progra
 
 		if pc != newPC {
 			// check branch
+			if newPC == selfJump {
+				newPC = pc
+			}
 			return newPC, exitReason
 		}
 
